@@ -276,7 +276,7 @@ func (c *endChecker) Final(w *World) *Violation {
 			mode = strings.ToUpper(string(u.Item.Args[3]))
 		}
 		if target < 0 {
-			if u.Reply.I != 0 {
+			if u.Reply.I != 0 && !openAvoid["unblock-reply-not-blocked"] {
 				return bad("unblock-reply-idle", "CLIENT UNBLOCK of an id no connection has answered %s, expected 0", u.Reply.String())
 			}
 			c.counts["unblock-idle"]++
@@ -299,7 +299,9 @@ func (c *endChecker) Final(w *World) *Violation {
 		}
 		switch {
 		case overlapping == 0:
-			if u.Reply.I != 0 {
+			// open known finding KF-unblock-reply-not-blocked: this clause is only
+			// enforced in the sentinel run (the emulator answers 1 for any existing id)
+			if u.Reply.I != 0 && !openAvoid["unblock-reply-not-blocked"] {
 				return bad("unblock-reply-idle", "client %d was not executing any command while CLIENT UNBLOCK ran [%d,%d], yet it answered %s, expected 0", target, u.Invoke, u.Return, u.Reply.String())
 			}
 			c.counts["unblock-idle"]++
@@ -439,6 +441,14 @@ func (c *endChecker) noOtherEnder(w *World, b, u *Op) bool {
 
 // sentinelPlans: fixed plans that reach an open known finding directly.
 var sentinelPlans = map[string]func() *Plan{
+	"c12-unblock-idle-client": func() *Plan {
+		p := &Plan{Prop: "C12", Class: "unblock", Knobs: Knobs{MaxSteps: 20000, IdleCap: 2000, Sticky: 100}}
+		p.Clients = []Client{
+			{Name: "target", Items: []Item{cmdItem("CLIENT", "ID"), {Op: "barrier", N: 1}}},
+			{Name: "admin", Items: []Item{{Op: "barrier", N: 1}, {Op: "await-idle"}, {Args: bs("CLIENT", "UNBLOCK", "$id:0"), Tag: "unblock-idle"}, {Op: "await-idle"}}},
+		}
+		return p
+	},
 	"c12-peer-close-while-blocked": func() *Plan {
 		p := &Plan{Prop: "C12", Class: "close", Knobs: Knobs{MaxSteps: 20000, IdleCap: 2000, Sticky: 100}}
 		p.Clients = []Client{
